@@ -56,6 +56,9 @@ Definition bs_core_wf (b : bsshape) : bool :=
      | _ => true
      end.
 
+(* the byte-size counter of a BSDynamicTriShape describes its dynamic data: 16 bytes per vertex *)
+Definition bs_dynsize_ok (b : bsshape) : bool := bs_dynsize b =? 16 * vlen (bs_dyn b).
+
 (* core of the result, for every BSTriShape kind: vertex data, triangles, counters, and the list
    of dropped triangle positions (descending) handed to the sub-index re-fit *)
 Definition bs_base_spec (b : bsshape) (idx : list N) : bsshape :=
